@@ -171,6 +171,11 @@ def _delegated_token_blocks(w, f, depth):
     return out
 
 
+def emit_block_defs(f, bi):
+    import emit
+    return emit.block_defs(f, bi)
+
+
 def t2(rep, w):
     r = rep.rule('T2', 'progress: every token scan consumes input or reports end of input; every recovery loop advances on each iteration', floor=5)
     st = w.require_fn(SC + 'scan_token', 'C03')
@@ -188,6 +193,35 @@ def t2(rep, w):
     ok = bool(adv) and c01.all_paths_hit(st, None, adv | eof | delegated)
     r.check(ok, 'scan_token: every path advances or sits at end of input', 'scan_token can return a token without consuming a character: the parser '
             'loops forever on the same position', st.loc())
+    # ... and at the end of the input the answer is the Eof token: the parser's advance() skips over error tokens, so an error token handed out
+    # there without consuming anything (the end of the input cannot be consumed) comes back for ever
+    sorg = origins(st)
+    bad_eof = []
+    for e in eof:
+        seen, todo = set(), [e]
+        while todo:
+            b = todo.pop()
+            if b in seen or b in adv:
+                continue
+            seen.add(b)
+            t = st.blocks[b]['t']
+            if t['t'] == 'call' and not (t.get('dst') or {}).get('p') and t['dst']['l'] == 0:
+                nm = callee_name(t) or ''
+                is_eof = False
+                if nm.endswith('::make_token') and len(t['args']) > 1:
+                    k = op_const(t['args'][1])
+                    pl = op_place(t['args'][1])
+                    defs = emit_block_defs(st, b)
+                    rr = defs.get(pl['l']) if pl else None
+                    is_eof = (rr is not None and rr.get('rv') == 'agg' and rr.get('v') == 'Eof') or (k is not None and k.get('s', '').endswith('Eof'))
+                if not is_eof:
+                    bad_eof.append(nm.rsplit('::', 1)[-1])
+            for s_ in st.succs()[b]:
+                if s_ in st.normal_blocks():
+                    todo.append(s_)
+    r.check(bool(eof) and not bad_eof, 'scan_token: at the end of the input the token handed out is Eof',
+            'scan_token can answer the end of the input with a token from %s instead of Eof, without consuming anything: the parser skips error tokens by asking again, '
+            'gets the same token again and never returns' % sorted(set(bad_eof)), st.loc())
     av = w.require_fn(SC + 'advance', 'C03')
     org = origins(av)
     ok = False
